@@ -124,7 +124,12 @@ Proof.
   match goal with |- rel_sum _ _ (match ?u1 with _ => _ end) (match ?u2 with _ => _ end) =>
     assert (Hund : Forall2 Rw u1 u2) end.
   { apply F2_filter.
-    - apply dedup_names_rel; [|constructor]. apply F2_app; auto. apply F2_app; auto.
+    - assert (U : forall a1 a2 b1 b2, Forall2 Rw a1 a2 -> Forall2 Rw b1 b2 -> Forall2 Rw (union_names a1 b1) (union_names a2 b2)).
+      { intros a1 a2 b1 b2 Ha Hb. unfold union_names.
+        assert (L : forall (x y : list (wth str)), Forall2 Rw x y -> length x = length y) by (induction 1; cbn; congruence).
+        rewrite (L _ _ Ha), (L _ _ Hb).
+        destruct (Nat.leb (length b2) (length a2)); (apply dedup_names_rel; [|constructor]); apply F2_app; auto. }
+      apply U; [apply U|]; auto.
     - intros a b Hab. rewrite (Rw_wv _ _ Hab), (mem_name_rel (wv b) _ _ Hlab). reflexivity. }
   destruct Hund as [|a b u1 u2 Hab Hu].
   - destruct (build_nodes_rel _ _ Hns _ _ pd1 pd2 [] [] [] [] true [] [] Hcalls Hpd
